@@ -13,6 +13,10 @@ CHECKS = {
    text="Deductive: the real EdgeCaseResult/MetricZeroTPEdgeCaseHandling/EdgeCaseHandler, _handle_zero_instances_cases and PanopticaResult (constructor, lazy attribute protocol, list-metric aggregation, fp/fn calculators) are executed symbolically with the handler configuration as symbolic enum values and symbolic non-negative counts; every path's result is proved equal to the statement's scenario function (one proof covers all 5^4 x 5 configurations per metric); no exception path is feasible. Counter-models are replayed on the real classes; a bounded run drives every scenario through the real evaluator for all three input types.",
    note=TRUST_COMMON + "np.average/np.std/np.sum/np.min/np.max on lists are uninterpreted functions (np.std default = population std); the three pipeline entry paths to the result constructor are covered by the bounded run and by C01's composition obligations.",
    tech="contract-based deductive verification: symbolic execution of the real classes with symbolic enum configuration, z3-discharged postconditions per path, counter-model replay"),
+ "C02": dict(cat="proof", design="DESIGN.md 3 C02",
+   text="Deductive: fp/fn/prec/rec/rq/sq*/pq* are evaluated through the real PanopticaResult (constructor, _add_metric binding table, __getattribute__ lazy protocol, Evaluation_List_Metric) on symbolic counts and symbolic per-instance lists and proved equal to the statement's formulas; evaluate_matched_instance is proved by loop invariant (ghost counting function) for symbolic instance lists, every decision metric and threshold: each list has exactly tp entries, tp is the number of instances meeting the threshold, lists are index-aligned; [0,1] ranges and sq_dsc>=sq are lemmas (NRA + induction). Counter-models are replayed; a bounded end-to-end run checks the same clauses on real results.",
+   note=TRUST_COMMON + "assumed contract of _evaluate_instance (exactly the evaluated metrics per instance) and np.average*len == sum; per-instance IoU<=Dice and [0,1] are C06 lemmas; MatchedInstancePair's label-set counting is covered by C04/C09 units and the bounded run.",
+   tech="contract-based deductive verification: symbolic execution of the real result classes, loop invariant with ghost functions, lemmas by induction in z3, counter-model replay"),
 }
 NA_REASON = "check not built yet (build in progress, see DESIGN.md section 7)"
 def main():
